@@ -302,7 +302,7 @@ static int cmd_check(const std::string& self, const std::string& prop, Tier tier
     ev.set("coverage", cov);
     J as = J::arr();
     as.push("the instrumented clang -O1 build of the working tree behaves like the shipped build at source level");
-    as.push("the access monitor sees library code and the wrapped libc routines; overflow of the library's own stack arrays is not seen");
+    as.push("the access monitor sees library code (aggregate copies included: memory intrinsics are lowered to monitored calls) and the wrapped libc routines, not the inside of other libc routines; indexing past the library's fixed-size arrays is reported by -fsanitize=bounds handlers, other overflow inside the library's own stack frames is not seen");
     as.push("sampling: only the inner dimensions named in 'rule' are enumerated exhaustively, per sampled case");
     ev.set("assumptions", as);
     ev.set("wall_s", wall); ev.set("violations", nviol);
